@@ -152,6 +152,14 @@ macro_rules | `(tactic| quiet_step) => `(tactic| with_reducible apply Quiet.mw_n
 macro_rules | `(tactic| quiet_step) => `(tactic| with_reducible apply Quiet.mw_assignCapacity)
 macro_rules | `(tactic| quiet_step) => `(tactic| with_reducible apply Quiet.mw_setReset)
 
+theorem Quiet.notifyPushIfRecvEnded {s0 s : Streams} (h : Quiet s0 s) (k : Nat) :
+    Quiet s0 (s.notifyPushIfRecvEnded k) := by
+  unfold Streams.notifyPushIfRecvEnded
+  split
+  · exact h.mw_notifyPush k
+  · exact h
+macro_rules | `(tactic| quiet_step) => `(tactic| with_reducible apply Quiet.notifyPushIfRecvEnded)
+
 /-! ### counters and `transition_after` -/
 
 theorem Quiet.incNumRecvStreams {s0 s : Streams} (h : Quiet s0 s) (id : Nat) : Quiet s0 (s.incNumRecvStreams id) := by
